@@ -27,8 +27,32 @@ def expected_meta_order(t, order_names):
     return s
 
 
+def big_case(cid, t, be=False):
+    """a stream whose fixed-size columns are larger than any buffer a reader might chunk by"""
+    data = bytes(G.encode_table(t, be=be).b)
+    exp_dec = [G.dec_ts_str(t, si, None) for si in range(len(t["slices"]))]
+
+    def oracle(c, exp_dec=exp_dec, t=t, n=len(data)):
+        d = parse_session(c.val(2)); f = []
+        if d["fh"] != 0 or d["tm"] != 0: return ["well-formed stream refused: fh=%s tm=%s" % (d["fh"], d["tm"])]
+        ok, part = find_seq(d["line"], exp_dec)
+        if not ok: f.append("decoded content of a large fixed-size column differs from what was encoded")
+        if d["n"] != len(t["slices"]) or d["end"] != -1000 or d["pos"] != n:
+            f.append("large table: end=%s n=%s pos=%s (expected end-of-table after %d slices at %d)" % (d["end"], d["n"], d["pos"], len(t["slices"]), n))
+        return f
+    return Case(cid, ["in 1 %s" % hx(data), "session 1 *"], oracle=oracle,
+                meta={"dist": {"kind": "large", "rows": len(t["slices"][0][0]["vals"]), "types": [c["ty"] for c in t["cols"]]}})
+
+
+def big_cases(rng, tier):
+    shapes = [([2], 70001), ([5, 13], 9000)] if tier != "thorough" else [([2], 70001), ([5, 13], 9000), ([3, 4], 66000), ([2, 8], 131073), ([13], 4097), ([1, 2], 65537)]
+    for k, (tys, rows) in enumerate(shapes):
+        yield big_case("big%d" % k, G.big_table(rng, tys, rows))
+
+
 def cases(rng, tier):
     n = {"quick": 300, "thorough": 8000, "search": 300}[tier]
+    for c in big_cases(rng, tier): yield c
     for i in range(n):
         k = rng.random()
         if k < 0.2:
@@ -80,5 +104,14 @@ def cases(rng, tier):
         rows = sum(len(col["vals"]) for sl in t["slices"] for col in sl)
         # every third stream is not seekable (a pipe): a full read needs nothing but fread
         piped = i % 3 == 2
+        if i % 4 == 1:
+            # the skipping reader is a reader too: it must step over every slice and report end-of-table at the end marker
+            def oracle_skip(c, t=t, n=len(data)):
+                d = parse_session(c.val(2))
+                if d["fh"] != 0 or d["tm"] != 0: return ["well-formed stream refused: fh=%s tm=%s" % (d["fh"], d["tm"])]
+                if d["n"] != len(t["slices"]) or d["end"] != -1000 or d["pos"] != n:
+                    return ["sbdf_ts_skip over the table: end=%s after %s slices at %s (expected end-of-table after %d slices at %d)" % (d["end"], d["n"], d["pos"], len(t["slices"]), n)]
+                return []
+            yield Case("k%d" % i, ["in 1 %s" % hx(data), "session 1 skip"], oracle=oracle_skip, meta={"dist": {"kind": "skip-session"}})
         yield Case("f%d" % i, ["%s 1 %s" % ("inpipe" if piped else "in", hx(data)), "session 1 *"], oracle=oracle, nontrivial=rows > 0,
                    meta={"dist": {"cols": len(t["cols"]), "slices": len(t["slices"]), "unused": len(unused), "permuted": order != list(range(total)), "piped": piped}})
